@@ -5,7 +5,7 @@ from props import stack_common as sc
 from props.c02 import geom_field, rand_coord, canon
 
 STACKS = ['strided.2.u64/array.1.f32', 'strided.3.u64/array.3.f64', 'morton.2.u64.b/array.1.f32', 'morton.3.u64.p/array.2.f32', 'hilbert.u64/array.1.f32',
-          'linear.f32/strided.2.u64/array.1.f32', 'linear.f64/morton.2.u64.p/array.2.f64', 'nearest.f32/strided.3.u64/array.3.f32', 'nearest.f64/hilbert.u64/array.1.f64',
+          'linear.f32/strided.2.u64/array.1.f32', 'linear.f64/morton.2.u64.p/array.2.f64', 'linear.f32/strided.4.u64/array.1.f32', 'linear.f64/strided.5.u64/array.2.f32', 'nearest.f32/strided.3.u64/array.3.f32', 'nearest.f64/hilbert.u64/array.1.f64',
           'affine/linear.f32/strided.3.u64/array.3.f32', 'clamp/strided.2.u64/array.2.f32', 'array.2.f32', 'constant.2.f32.3.f32', 'backup/nearest.f32/strided.2.u64/array.1.f32']
 
 
